@@ -153,3 +153,4 @@ def prepare_canonical(engine):
     _copy(os.path.join(VERIF, "harness", "shadow", "vbits.rs"), os.path.join(dst, "src", "vcoll.rs"))
     _copy(os.path.join(VERIF, "harness", "shadow", "canonical_shim.rs"), os.path.join(dst, "src", "lib.rs"))
     _common_manifest(dst, "verif-shadow-canonical", deps='log = "0.4.17"\nnonempty = "0.9.0"\ngit2 = { path = "/verif/harness/shadow/shims/git2" }\n')
+
